@@ -113,7 +113,7 @@ func H_C12_classes() {
 			line++
 		}
 	}
-	vfNote(err.Error())
+	vfNote(c12Head(err.Error()))
 	vfAssert(hxContains(err.Error(), c12Needle("/m.jet", line)), "the message names the file and the action's line")
 	if c12Failing[c] == `{{ "x" | raw | upper }}` {
 		// the failing action itself has already written through the SafeWriter stage
@@ -160,7 +160,7 @@ func H_C12_otherFile() {
 	if err == nil {
 		return
 	}
-	vfNote(err.Error())
+	vfNote(c12Head(err.Error()))
 	vfAssert(hxContains(err.Error(), c12Needle(want, 1+nl)), "the message names the file that contains the failing action and its line")
 }
 
@@ -179,4 +179,15 @@ func H_C12_funcError() {
 	vfReach("failed")
 	vfAssert(err != nil, "the reported error is returned")
 	vfAssert(out == "A", "output stops at the failing action")
+}
+
+// c12Head is the part of a runtime error message up to and including the position
+// ("file":line); the rest is free wording (not compared between engine and native run).
+func c12Head(msg string) string {
+	for i := 0; i+1 < len(msg); i++ {
+		if msg[i] == ')' && msg[i+1] == ':' {
+			return msg[:i+1]
+		}
+	}
+	return "<no position>"
 }
